@@ -1753,3 +1753,201 @@ def rule_t7(P):
     if n_callers < 3:
         raise E5Error(f"T7: only {n_callers} callers of the fvar name lookup found (expected axis, instance and PostScript name lookups)")
     return findings, obl, {"t7_name_id_predicates": len(preds), "t7_alloc_reserved": sorted(alloc), "t7_lookup_callers": n_callers}
+
+
+def rule_t8(P):
+    """'Every name id used by fvar has a NON-EMPTY record': StaticMetadata::new registers a name (id >= 256) for each named
+    instance's name and PostScript name, which arrive from the front ends as arbitrary strings.  Sanitiser-before-sink rule inside
+    StaticMetadata::new: each registration whose string comes from a field of NamedInstance is preceded (on the CFG: the test can
+    reach the registration and never the other way round) by an emptiness test of that field - a direct `is_empty` call or a call
+    taking a closure that calls it (retain, is_some_and, filter, ..)."""
+    from common import norm_fn
+    from prog import CFG
+    findings, obl = [], []
+    roots = [k for k, b in P.bodies.items() if re.fullmatch(r"fontir::ir::static_metadata::\{impl#\d+\}::new", k)
+             and (b.get("impl_self") or "").endswith("::StaticMetadata")]
+    if len(roots) != 1:
+        raise E5Error(f"T8: StaticMetadata::new not found ({roots})")
+    root = roots[0]
+    b = P.bodies[root]
+    blocks = b["blocks"]
+    fam = [k for k in P.bodies if k.startswith(root + "::") and "#promoted" not in k]
+
+    def calls_in(k):
+        out = []
+        for kk in [k] + [x for x in fam if x.startswith(k + "::")]:
+            for blk in P.bodies[kk]["blocks"]:
+                t = blk["t"]
+                if t["t"] == "call":
+                    out.append((t["f"].get("k") or {}))
+        return out
+
+    def is_empty_call(k):
+        return re.search(r"(alloc::string::\{impl#\d+\}|core::str::\{impl#\d+\}|str)::is_empty$", k.get("fn", "") or "") is not None
+
+    FIELD = re.compile(r"f:(\w+):fontir::ir::static_metadata::NamedInstance$")
+
+    def fields_in_place(pl):
+        return {m.group(1) for e in (pl or [])[1:] if isinstance(e, str) for m in [FIELD.match(e)] if m}
+
+    def mentions(k):
+        out = set()
+        for kk in [k] + [x for x in fam if x.startswith(k + "::")]:
+            for blk in P.bodies[kk]["blocks"]:
+                for st in blk["s"]:
+                    rv = st["rv"]
+                    out |= fields_in_place(rv.get("p"))
+                    for o in rv.get("o", []):
+                        out |= fields_in_place(o.get("m") or o.get("c"))
+                if blk["t"]["t"] == "call":
+                    for o in blk["t"]["a"]:
+                        out |= fields_in_place(o.get("m") or o.get("c"))
+        return out
+
+    # defs of each local in the root
+    defs = defaultdict(list)
+    for bi, blk in enumerate(blocks):
+        if blk.get("cl"):
+            continue
+        for st in blk["s"]:
+            if st["d"]:
+                defs[st["d"][0]].append(("s", st["rv"]))
+        t = blk["t"]
+        if t["t"] == "call" and t.get("d"):
+            defs[t["d"][0]].append(("c", t))
+
+    def slice_fields(l, depth=10):
+        """fields of NamedInstance the value of local l is computed from (backward slice through defs, bounded)"""
+        out, seen, frontier = set(), {l}, [l]
+        for _ in range(depth):
+            nxt = []
+            for x in frontier:
+                for kind, d in defs.get(x, []):
+                    places = []
+                    if kind == "s":
+                        if d.get("p"):
+                            places.append(d["p"])
+                        places += [o.get("m") or o.get("c") for o in d.get("o", [])]
+                    else:
+                        places += [o.get("m") or o.get("c") for o in d["a"]]
+                    for pl in places:
+                        if not pl:
+                            continue
+                        out |= fields_in_place(pl)
+                        if pl[0] not in seen:
+                            seen.add(pl[0])
+                            nxt.append(pl[0])
+            frontier = nxt
+        return out
+
+    def result_depends_on_is_empty(k):
+        """the closure's return value is computed from an is_empty result (directly, negated, or by branching on it to different constants)"""
+        kb = P.bodies[k]
+        kblocks = kb["blocks"]
+        derived = set()
+        for blk in kblocks:
+            t = blk["t"]
+            if t["t"] == "call" and is_empty_call(t["f"].get("k") or {}) and t.get("d"):
+                derived.add(t["d"][0])
+        if not derived:
+            return False
+        changed = True
+        while changed:
+            changed = False
+            for blk in kblocks:
+                for st in blk["s"]:
+                    if len(st["d"]) == 1 and st["d"][0] not in derived and st["rv"].get("r") in ("use", "un", "unop", "not", "cast"):
+                        ops = [(o.get("m") or o.get("c") or [None])[0] for o in st["rv"].get("o", [])]
+                        if any(x in derived for x in ops):
+                            derived.add(st["d"][0])
+                            changed = True
+        if 0 in derived:
+            return True
+
+        def consts_from(bi, seen):
+            """constants assigned to _0 on paths from block bi to return (last assignment wins per path; approximated by first seen)"""
+            out = set()
+            stack = [bi]
+            while stack:
+                x = stack.pop()
+                if x in seen:
+                    continue
+                seen.add(x)
+                hit = None
+                for st in kblocks[x]["s"]:
+                    if st["d"] == [0]:
+                        o = (st["rv"].get("o") or [{}])[0]
+                        hit = (o.get("k") or {}).get("int", "?")
+                if hit is not None:
+                    out.add(hit)
+                    continue
+                stack.extend(kblocks[x]["t"].get("to") or [])
+            return out
+        for blk in kblocks:
+            t = blk["t"]
+            if t["t"] == "sw" and (t["o"].get("m") or t["o"].get("c") or [None])[0] in derived and len(t["to"]) == 2:
+                a, c = consts_from(t["to"][0], set()), consts_from(t["to"][1], set())
+                if a and c and a != c:
+                    return True
+        return False
+
+    reg = [k for k in fam if any(re.search(r"hash::map::\{impl#\d+\}::(or_insert_with|or_insert|insert)$", c.get("fn", "") or "") and
+                                 any("NameKey" in g for g in c.get("ga", [])) for c in calls_in(k)) and P.bodies[k].get("parent") == root]
+    if len(reg) != 1:
+        raise E5Error(f"T8: the registering closure of StaticMetadata::new was not identified ({reg})")
+    reg = reg[0]
+    closure_of = {}
+    for blk in blocks:
+        for st in blk["s"]:
+            if st["rv"].get("r") == "agg" and st["rv"].get("ak") == "closure" and st["d"]:
+                closure_of[st["d"][0]] = st["rv"]["def"]
+    sinks, sanit = [], []
+    for bi, blk in enumerate(blocks):
+        t = blk["t"]
+        if blk.get("cl") or t["t"] != "call":
+            continue
+        k = t["f"].get("k") or {}
+        arg_locals = [(o.get("m") or o.get("c") or [None])[0] for o in t["a"]]
+        if k.get("res") == reg:
+            fl = set()
+            for a in arg_locals[1:]:
+                fl |= slice_fields(a)
+            sinks.append((bi, t["l"], fl))
+            continue
+        if is_empty_call(k):
+            fl = set()
+            for a in arg_locals:
+                fl |= slice_fields(a)
+            if fl:
+                sanit.append((bi, t["l"], fl, "is_empty"))
+            continue
+        cl = [closure_of[a] for a in arg_locals if a in closure_of]
+        if cl and result_depends_on_is_empty(cl[0]):
+            fl = mentions(cl[0])
+            for a in arg_locals:
+                if a not in closure_of:
+                    fl |= slice_fields(a)
+            if fl:
+                sanit.append((bi, t["l"], fl, (k.get("fn") or "").rsplit("::", 1)[-1]))
+    if len(sinks) < 3:
+        raise E5Error(f"T8: only {len(sinks)} registration sites found in StaticMetadata::new (expected axis, instance name, PostScript name)")
+    cfg = CFG(b)
+    n_cov = 0
+    for bi, line, fl in sinks:
+        if not fl:
+            obl.append({"rule": "T8", "inst": f"registration at static_metadata.rs:{line}: string not taken from a NamedInstance field (axis label; not covered by this rule)", "ok": True})
+            continue
+        n_cov += 1
+        after = cfg.reachable_from(bi)
+        for f in sorted(fl):
+            good = [s for s in sanit if f in s[2] and bi in cfg.reachable_from(s[0]) and s[0] not in after]
+            ok = bool(good)
+            obl.append({"rule": "T8", "inst": f"registration of NamedInstance.{f}: an emptiness test of that field precedes it ({', '.join(f'{s[3]} at line {s[1]}' for s in good) or 'none'})", "ok": ok})
+            if not ok:
+                findings.append({"rule": "T8", "key": f"T8|{norm_fn(root)}|{f}",
+                                 "msg": f"StaticMetadata::new registers NamedInstance.{f} as a name record without an emptiness test of that field before the registration: an instance with "
+                                        f"{f} == \"\" (stylename=\"\" in a designspace, `name = \"\";` in a Glyphs instance) gets a font-specific name id whose record is the empty string, "
+                                        f"and fvar refers to it", "loc": P.site_loc(root, line), "detail": {}})
+    if n_cov < 2:
+        raise E5Error(f"T8: only {n_cov} registrations traced to NamedInstance fields")
+    return findings, obl, {"t8_registrations": len(sinks), "t8_emptiness_tests": len(sanit)}
